@@ -154,6 +154,32 @@ func pngWithICC(tag byte) []byte {
 	return append(b, chunk("IEND", nil)...)
 }
 
+// pngWithBigICC: like pngWithICC with a 24 KB profile that deflate cannot shrink.
+func pngWithBigICC(tag byte) []byte {
+	chunk := func(typ string, data []byte) []byte {
+		b := []byte{byte(len(data) >> 24), byte(len(data) >> 16), byte(len(data) >> 8), byte(len(data))}
+		b = append(b, typ...)
+		b = append(b, data...)
+		c := crc32.ChecksumIEEE(b[4:])
+		return append(b, byte(c>>24), byte(c>>16), byte(c>>8), byte(c))
+	}
+	prof := make([]byte, 24000)
+	x := uint32(tag)*2654435761 + 12345
+	for i := range prof {
+		x = x*1664525 + 1013904223
+		prof[i] = byte(x >> 24)
+	}
+	var z bytes.Buffer
+	zw := zlib.NewWriter(&z)
+	zw.Write(prof)
+	zw.Close()
+	b := []byte("\x89PNG\r\n\x1a\n")
+	b = append(b, chunk("IHDR", []byte{0, 0, 0, 2, 0, 0, 0, 3, 8, 2, 0, 0, 0})...)
+	b = append(b, chunk("iCCP", append([]byte("big\x00\x00"), z.Bytes()...))...)
+	b = append(b, chunk("IDAT", []byte{0x78, 0x9c, 1, 2, 3})...)
+	return append(b, chunk("IEND", nil)...)
+}
+
 func tinyWebP() []byte {
 	return []byte("RIFF\x1a\x00\x00\x00WEBPVP8L\x0d\x00\x00\x00\x2f\x13\x40\x02\x10\x01\x02\x03\x04\x05\x00\x00\x00")
 }
@@ -321,9 +347,44 @@ func scenarios() []scenario {
 		inPlace bool
 	}{{5, 1, 2, true}, {5, 1, 2, false}, {7, 2, 3, true}, {5, 1, 4, true}, {1, 5, 2, true}, {7, 3, 4, false},
 		// one column, more rows than a plausible band or batch size (8, 16, 32) plus a remainder
-		{1, 17, 2, false}, {1, 35, 3, false}} {
+		{1, 17, 2, false}, {1, 35, 3, false},
+		// ... and fewer bands of such a size than workers
+		{1, 17, 4, false}, {1, 35, 5, false}} {
 		sh := sh
 		out = append(out, scenario{fmt.Sprintf("image/linear.TransformImageColor halve %dx%d parallelism %d in place=%v", sh.w, sh.h, sh.p, sh.inPlace), par(func() string { return shaped(sh.w, sh.h, sh.p, sh.inPlace) })})
+	}
+	// the conversion helpers on one-column images taller than a plausible chunk size, with a remainder of 1-3 rows
+	tallSrc := func(kind string, h int) image.Image {
+		r := image.Rect(0, 0, 1, h)
+		switch kind {
+		case "NRGBA":
+			m := image.NewNRGBA(r)
+			fillPix(m.Pix, 12)
+			return m
+		case "RGBA64":
+			m := image.NewRGBA64(r)
+			fillPix(m.Pix, 13)
+			return m
+		default:
+			m := image.NewYCbCr(r, image.YCbCrSubsampleRatio444)
+			fillPix(m.Y, 3)
+			fillPix(m.Cb, 4)
+			fillPix(m.Cr, 5)
+			return m
+		}
+	}
+	for _, tc := range []struct {
+		name string
+		h, p int
+		run  func(h, p int) string
+	}{
+		{"prism.ConvertImageToRGBA64 NRGBA", 17, 2, func(h, p int) string { return pixString(prism.ConvertImageToRGBA64(tallSrc("NRGBA", h), p).Pix) }},
+		{"prism.ConvertImageToRGBA64 NRGBA", 35, 3, func(h, p int) string { return pixString(prism.ConvertImageToRGBA64(tallSrc("NRGBA", h), p).Pix) }},
+		{"prism.ConvertImageToRGBA RGBA64", 18, 2, func(h, p int) string { return pixString(prism.ConvertImageToRGBA(tallSrc("RGBA64", h), p).Pix) }},
+		{"prism.ConvertImageToNRGBA YCbCr", 19, 4, func(h, p int) string { return pixString(prism.ConvertImageToNRGBA(tallSrc("YCbCr", h), p).Pix) }},
+	} {
+		tc := tc
+		out = append(out, scenario{fmt.Sprintf("image/%s 1x%d parallelism %d", tc.name, tc.h, tc.p), par(func() string { return tc.run(tc.h, tc.p) })})
 	}
 	// parallelism values at and below the documented minimum, from two goroutines at once
 	// (a negative value makes go-parallel panic on its WaitGroup: outside the property)
@@ -346,6 +407,8 @@ func scenarios() []scenario {
 		scenario{"meta/two pngmeta.Load", par(loadString(pngmeta.Load, tinyPNG()), loadString(pngmeta.Load, tinyPNG()))},
 		scenario{"meta/two pngmeta.Load with iCCP", par(loadString(pngmeta.Load, pngWithICC(0x11)), loadString(pngmeta.Load, pngWithICC(0x83)))},
 		scenario{"meta/autometa.Load x2 png with iCCP", par(loadString(autometa.Load, pngWithICC(0x21)), loadString(autometa.Load, pngWithICC(0x93)))},
+		scenario{"meta/pngmeta.Load with a 24 KB incompressible iCCP", par(loadString(pngmeta.Load, pngWithBigICC(0x31)))},
+		scenario{"meta/two pngmeta.Load with 24 KB incompressible iCCP", par(loadString(pngmeta.Load, pngWithBigICC(0x41)), loadString(autometa.Load, pngWithBigICC(0xA3)))},
 		scenario{"meta/two jpegmeta.Load", par(loadString(jpegmeta.Load, tinyJPEG()), loadString(jpegmeta.Load, tinyJPEG()))},
 		scenario{"meta/two jpegmeta.Load multi-chunk ICC", par(loadString(jpegmeta.Load, twoChunkJPEG(0x10)), loadString(jpegmeta.Load, twoChunkJPEG(0x80)))},
 		scenario{"meta/autometa.Load x2 multi-chunk ICC", par(loadString(autometa.Load, twoChunkJPEG(0x20)), loadString(autometa.Load, twoChunkJPEG(0x90)))},
@@ -414,6 +477,17 @@ func scenarios() []scenario {
 		}
 		return append(p, 0, 0, 0, 0)
 	}
+	iccJunk := func(longer bool) []byte {
+		p := make([]byte, 128)
+		p[3], p[8] = 200, 4
+		copy(p[36:], "bad!")
+		p = append(p, 0, 0, 0, 9) // nine tags announced, two present
+		p = append(p, []byte("desc\x00\x00\x01\x00\x00\x00\x00\x10cprt\x00\x00\x01\x10\x00\x00\x00\x10")...)
+		if longer {
+			p = append(p, 1, 2, 3, 4, 5, 6, 7)
+		}
+		return p
+	}
 	readICC := func(b []byte) func() string {
 		return func() string {
 			pr, err := icc.NewProfileReader(bytes.NewReader(b)).ReadProfile()
@@ -436,6 +510,8 @@ func scenarios() []scenario {
 			func() string { return fmt.Sprint(ciexyz.ColorFromLAB(cielab.Color{L: 50, A: 20, B: -30}, ciexyz.D65)) })},
 		scenario{"convert/srgb->prophoto vs prophoto->srgb", par(convert(color.NRGBA{R: 200, G: 100, B: 50, A: 255}, true), convert(color.NRGBA{R: 20, G: 200, B: 90, A: 128}, false))},
 		scenario{"icc/two ReadProfile, same profile ID, different flags and intent", par(readICC(iccWithID(1, 0)), readICC(iccWithID(2, 3)))},
+		scenario{"icc/ReadProfile of junk: wrong signature and a tag table cut short", par(readICC(iccJunk(false)))},
+		scenario{"icc/two ReadProfile of junk", par(readICC(iccJunk(false)), readICC(iccJunk(true)))},
 	)
 	// larger workloads, only for the free-running -race pass (name prefix "free/")
 	bigLin := func(name string, f func(dst *image.RGBA64, src image.Image, p int), p int) scenario {
@@ -448,6 +524,13 @@ func scenarios() []scenario {
 		})}
 	}
 	out = append(out,
+		scenario{"free/linear.TransformImageColor 40x40 parallelism 8 and 13", par(func() string { return shaped(40, 40, 8, false) + shaped(40, 40, 13, true) })},
+		scenario{"free/prism.ConvertImageTo* 35 and 50 rows parallelism 4 and 7", par(func() string {
+			a := prism.ConvertImageToRGBA64(tallSrc("NRGBA", 35), 4)
+			b := prism.ConvertImageToNRGBA(tallSrc("YCbCr", 50), 7)
+			c := prism.ConvertImageToRGBA(tallSrc("RGBA64", 33), 16)
+			return pixString(a.Pix) + pixString(b.Pix) + pixString(c.Pix)
+		})},
 		bigLin("srgb.LineariseImage", func(d *image.RGBA64, s image.Image, p int) { srgb.LineariseImage(d, s, p) }, 4),
 		bigLin("adobergb.LineariseImage", func(d *image.RGBA64, s image.Image, p int) { adobergb.LineariseImage(d, s, p) }, 4),
 		bigLin("prophotorgb.EncodeImage", func(d *image.RGBA64, s image.Image, p int) { prophotorgb.EncodeImage(d, s, p) }, 7),
